@@ -28,7 +28,7 @@ template <class Q, class K> struct UOps {   // push(value) always succeeds
   static int pop(Q& q, T& out) { auto r = q.pop(); if (r) { out = std::move(*r); return 1; } return 0; }
   static int tpop(Q& q, T& out) { return q.try_pop(out) ? 1 : 0; }
   static int popw(Q& q, T& out) { return tpop(q, out); }
-  static void flush() {}
+  static void flush() { xvgc::gc_flush(); }
 };
 template <class Q, class K> struct BOps {   // try_push may fail
   using T = typename K::T;
@@ -42,7 +42,12 @@ template <class Q, class K> struct BOps {   // try_push may fail
 
 template <class Q, class K> static Adapter* mkU(QSpec sp = QSpec()) { return new QueueAdapter<Q, K, UOps<Q, K>>([](const Case&) { return new Q(); }, sp); }
 
-template <class K> static Adapter* mk_ms() { return mkU<xenium::michael_scott_queue<typename K::T, xp::reclaimer<R>>, K>(); }
+template <class K> static Adapter* mk_ms() {
+  using Q = xenium::michael_scott_queue<typename K::T, xp::reclaimer<R>>;
+  auto* a = new QueueAdapter<Q, K, UOps<Q, K>>([](const Case&) { return new Q(); }, QSpec());
+  a->naming = [](Q* q, const Case&) { xv::name_range(&q->_head, sizeof q->_head, "head"); xv::name_range(&q->_tail, sizeof q->_tail, "tail"); };
+  return a;
+}
 template <class K, unsigned E, unsigned P> static Adapter* mk_ram() { return mkU<xenium::ramalhete_queue<typename K::T, xp::reclaimer<R>, xp::entries_per_node<E>, xp::pop_retries<P>>, K>(); }
 template <class K, unsigned E, unsigned P> static Adapter* mk_nik() { return mkU<xenium::nikolaev_queue<typename K::T, xp::reclaimer<R>, xp::entries_per_node<E>, xp::pop_retries<P>>, K>(); }
 template <class K> static Adapter* mk_kf(const Case& c) {
